@@ -16,6 +16,7 @@ pub mod c09;
 pub mod c10;
 pub mod c11;
 pub mod c12;
+pub mod c13;
 pub mod c18;
 
 use crate::engine::{Ctx, Verdict};
@@ -79,9 +80,9 @@ pub fn all() -> Vec<PropInfo> {
         shards: (8, 16),
         watchdog: (600, 7200),
         rule: "records (SeqGen incl. foreign bytes, low-complexity and palindromic content, degenerate lengths) x k in 1..=8 x {normalised, counts}: (1) the per-sequence routine compared unrounded with model counts; \
-               (2) the file API through both writers and (3) the executable (k 3..=7), where every record is followed by its reverse-complement, lower-case and T->U variants so that the invariances are checked on the same output; \
+               (2) the file API through both writers, (3) the executable (k 3..=7) and (4) pykmertools.OligoComputer.vectorise_one through a python3-vt worker; in (2)/(3) every record is followed by its reverse-complement, lower-case and T->U variants so that the invariances are checked on the same output; \
                values: exact integers in counts mode, within 5e-7 of count/total in normalised mode; non-trivial = some record has >= 2 distinct non-zero columns; distinct by hash of the case",
-        assumptions: &["normalised text compared with a tolerance of 5e-7 + 1e-12 (\"correct to 6 decimals\"), variant rows within 1e-6", "Python leg is exercised by C13's suite"],
+        assumptions: &["normalised text compared with a tolerance of 5e-7 + 1e-12 (\"correct to 6 decimals\"), variant rows within 1e-6", "the Python leg feeds ASCII strings (bytes >= 0x80 masked); non-ASCII input is C13's subject"],
         abort_is_violation: false,
     },
     PropInfo {
@@ -94,6 +95,18 @@ pub fn all() -> Vec<PropInfo> {
                oracle: baseline (1 thread, batch writer, single-line FASTA) matches the model row by row, the generated configuration gives identical bytes, header-on = header line + header-off bytes; plus bounded-exhaustive enumeration of all hook-granularity schedules of the mmap writer for small inputs; \
                non-trivial = >= 3 records and (threads >= 2 or >= 2 batches or a non-FIFO controlled schedule or a non-baseline container); distinct by hash of the case",
         assumptions: &["interleavings finer than the two schedule points per worker loop are explored only by free-running threads", "mmap writer is only used in normalised mode (it asserts so)"],
+        abort_is_violation: false,
+    },
+    PropInfo {
+        id: "C13",
+        run: c13::run,
+        replay: c13::replay,
+        shards: (8, 8),
+        watchdog: (900, 7200),
+        rule: "Hypothesis (python3-vt, seeded from VERIF_SEED, no database) over Python str from three alphabets (nucleotide, mixed case + IUPAC + punctuation, full unicode without surrogates and U+0000..U+0003) x parameters in the documented ranges x batch sizes 0..50 (occasionally 2000); \
+               differential against the Rust core built from the same tree (vh oracle-server): k-mer and minimiser iterators equal, to_acgt equal, oligo vector within 1e-12 and header equal, CGR equal or ValueError exactly when the core returns Err, batch == list of per-sequence results in order (CGR batch raises iff an element is bad), iterator from a released temporary string followed by gc and 1 MiB of fresh allocations still equals the core; the interpreter must survive (a dead interpreter = violation with the journaled example); \
+               non-trivial = non-empty result and (non-ASCII present or batch >= 2 or released-string leg); distinct by hash of the example",
+        assumptions: &["scheduling of rayon's global pool inside the extension is only stressed (large batches), not controlled", "U+0000..U+0003 are never generated (bytes 0-3 are unspecified)"],
         abort_is_violation: false,
     },
     PropInfo {
@@ -252,8 +265,7 @@ pub fn timeouts_inconclusive(ctx: &mut Ctx) {
 }
 
 pub fn oracle_server() {
-    eprintln!("oracle-server not built yet");
-    std::process::exit(2);
+    c13::oracle_server()
 }
 
 pub fn corpus(_target: &str, _dir: &str) {
